@@ -3,8 +3,8 @@ package w1proxy
 import (
 	"fmt"
 	"sort"
-	"time"
 	"strings"
+	"time"
 
 	"github.com/XiaoMi/Gaea/models"
 
@@ -40,7 +40,14 @@ func genC20Op(tp *simkit.Tape, client, idx int) Op {
 	case c == 6:
 		return Op{Kind: "query", SQL: fmt.Sprintf("update t_plain set a = 1 where id = %d", m), Marker: m, Class: "write", Table: "t_plain"}
 	case c == 7:
-		cs := []string{"utf8mb4", "gbk", "latin1", "utf8"}[tp.Choose(4)]
+		cs := []string{"utf8mb4", "gbk", "latin1", "utf8", "utf8mb4", "utf8mb4"}[tp.Choose(6)]
+		if tp.Chance(1, 2) {
+			// an explicit collation of that character set (sometimes its default one)
+			cols := map[string][]string{"utf8mb4": {"utf8mb4_bin", "utf8mb4_unicode_ci", "utf8mb4_general_ci"}, "gbk": {"gbk_bin", "gbk_chinese_ci"},
+				"latin1": {"latin1_bin", "latin1_general_ci", "latin1_swedish_ci"}, "utf8": {"utf8_bin", "utf8_unicode_ci", "utf8_general_ci"}}[cs]
+			col := cols[tp.Choose(len(cols))]
+			return Op{Kind: "query", SQL: "set names " + cs + " collate " + col, Class: "names", Arg: cs + "/" + col}
+		}
 		return Op{Kind: "query", SQL: "set names " + cs, Class: "names", Arg: cs}
 	case c == 8:
 		v := []string{"STRICT_TRANS_TABLES", "NO_BACKSLASH_ESCAPES", "ANSI_QUOTES,STRICT_ALL_TABLES", "ONLY_FULL_GROUP_BY"}[tp.Choose(4)]
@@ -99,9 +106,11 @@ func runC20(r *simkit.Run) {
 	killed := 0
 	lastUser := map[uint32]int{} // backend connection -> last client that ran a statement on it
 	for i := 0; i < nClients; i++ {
-		cm := &ClientModel{Idx: i, User: "ns1_rw", DB: "db1", AC: true, Charset: "utf8mb4", Vars: map[string]string{}, UVars: map[string]string{}}
+		// the collation named in the client's handshake is its first request
+		login := [][3]interface{}{{byte(45), "utf8mb4", "utf8mb4_general_ci"}, {byte(45), "utf8mb4", "utf8mb4_general_ci"}, {byte(46), "utf8mb4", "utf8mb4_bin"}, {byte(224), "utf8mb4", "utf8mb4_unicode_ci"}, {byte(33), "utf8", "utf8_general_ci"}, {byte(83), "utf8", "utf8_bin"}}[tp.Choose(6)]
+		cm := &ClientModel{Idx: i, User: "ns1_rw", DB: "db1", AC: true, Charset: login[1].(string), Coll: login[2].(string), Vars: map[string]string{}, UVars: map[string]string{}}
 		h.Clients = append(h.Clients, cm)
-		cc := &c20client{cm: cm, everVars: map[string]map[string]bool{}, everNames: map[string]bool{"utf8mb4": true}}
+		cc := &c20client{cm: cm, everVars: map[string]map[string]bool{}, everNames: map[string]bool{cm.Charset + "/" + cm.Coll: true}}
 		for j := 0; j < opsPer; j++ {
 			op := genC20Op(tp, i, j)
 			if !withBad && strings.Contains(op.SQL, "NOT_A_MODE") {
@@ -112,7 +121,7 @@ func runC20(r *simkit.Run) {
 		name := fmt.Sprintf("client%d", i)
 		r.Go(name, func() {
 			defer func() { finished++ }()
-			c, err := w.Connect("", mycli.Options{User: "ns1_rw", Password: "pw_rw", DB: "db1"})
+			c, err := w.Connect("", mycli.Options{User: "ns1_rw", Password: "pw_rw", DB: "db1", Charset: login[0].(byte)})
 			if err != nil {
 				r.Failf("harness", "%s cannot connect: %v", name, err)
 				return
@@ -154,7 +163,7 @@ func runC20(r *simkit.Run) {
 							cc.pendingBad = true
 						}
 					case "names":
-						cc.everNames[op.Arg] = true
+						cc.everNames[cm.Charset+"/"+cm.Coll] = true
 					}
 				}
 				if rec.Err != nil && op.Marker != 0 {
@@ -188,15 +197,15 @@ func runC20(r *simkit.Run) {
 							r.Failf("C20-foreign-setting-on-connection", "%s statement %q ran on backend connection %d where user variable %s is %q; this client never set that (its requests: %v)", name, op.SQL, st.ConnID, v, x, keysOf(cc.everVars[v]))
 						}
 					}
-					if !cc.everNames[b.Charset] {
-						r.Failf("C20-foreign-setting-on-connection", "%s statement %q ran on backend connection %d with character set %s; this client asked for %v", name, op.SQL, st.ConnID, b.Charset, keysOf(cc.everNames))
+					if !cc.everNames[b.Charset+"/"+b.Collation] {
+						r.Failf("C20-foreign-setting-on-connection", "%s statement %q ran on backend connection %d with character set / collation %s/%s; this client asked for %v", name, op.SQL, st.ConnID, b.Charset, b.Collation, keysOf(cc.everNames))
 					}
 					// (2) exactly the client's current settings, as long as none of its SETs was refused
 					if cc.rejected || cc.pendingBad {
 						continue
 					}
-					if b.Charset != cm.Charset {
-						r.Failf("C20-own-setting-missing", "%s asked for character set %s but %q ran on backend connection %d with %s", name, cm.Charset, op.SQL, st.ConnID, b.Charset)
+					if b.Charset != cm.Charset || b.Collation != cm.Coll {
+						r.Failf("C20-own-setting-missing", "%s asked for character set / collation %s/%s but %q ran on backend connection %d with %s/%s", name, cm.Charset, cm.Coll, op.SQL, st.ConnID, b.Charset, b.Collation)
 					}
 					for v, x := range cm.Vars {
 						if b.Vars[v] != x {
